@@ -38,3 +38,18 @@ def iff(a, b):
 
 def ite(c, a, b):
     return a if c else b
+
+
+def narrow(obj, cls):
+    return obj
+
+
+GHOST_IMPL = {}     # name -> python function: concrete reading of ghost_bool / ghost_int (replay, run-time monitoring)
+
+
+def ghost_bool(name, *args):
+    return bool(GHOST_IMPL[name](*args))
+
+
+def ghost_int(name, *args):
+    return int(GHOST_IMPL[name](*args))
